@@ -95,34 +95,110 @@ theorem joinClause_allNodup (scan : List Triple) (glo ghi : Option Int) (c : Cla
     · obtain ⟨m, hm', rfl⟩ := List.mem_map.mp hxr; exact hm m hm'
   · obtain ⟨m, hm', rfl⟩ := List.mem_map.mp hxr; exact hm m hm'
 
+/-! ### The same for `joinClauseO` -/
+
+/-- `matchClause` reads the object's interval as instants only. -/
+def matchClauseN (c : Clause) (loN hiN : Option Int) (w : Window) (t : Triple) : Option Row :=
+  if !constsMatch c t then none else
+  if c.pID ≠ [] && (t.p.id ≠ c.pID) then none else
+  if c.pID ≠ [] && c.pTemporal && c.pAnchorBinding = [] && t.p.anchor.isNone then none else
+  if !w.holds t.p then none else
+  if c.oID ≠ [] && (match t.o with
+      | .pred p => p.id ≠ c.oID || (c.oTemporal && c.oAnchorBinding = [] && p.anchor.isNone) ||
+          (c.oAnchorBinding = [] && c.oTemporal && !(({ lower := loN, upper := hiN } : Window).holds p))
+      | _ => false) then none else
+  (clauseSteps c t).foldl bindStep (some [])
+
+theorem matchClause_setO (c : Clause) (lo hi : Option Time) (la ua : Bytes) (w : Window) (t : Triple) :
+    matchClause (setO lo hi la ua c) w t = matchClauseN c (lo.map (·.nanos)) (hi.map (·.nanos)) w t := rfl
+
+theorem rowBound_congr {r r' : Row} (h : RowEq r r') (alias : Bytes) (own : Option Time) :
+    (rowBound r alias own).map (·.nanos) = (rowBound r' alias own).map (·.nanos) := by
+  unfold rowBound
+  by_cases ha : alias = []
+  · simp [ha]
+  · simp only [ha, if_false]
+    unfold rowTimeT
+    have := h alias
+    cases h1 : r.get alias <;> cases h2 : r'.get alias <;> simp [h1, h2] at this ⊢
+    rename_i v v'
+    cases v <;> cases v' <;> simp [normCell] at this ⊢
+    exact this
+
+/-- The clause a row sees depends on the row only up to anchor representation, as far as matching goes. -/
+theorem specJoin_rowBounds_congr (scan : List Triple) (glo ghi : Option Int) (c : Clause) {r r' : Row} (h : RowEq r r') (x : Row) :
+    specJoin scan glo ghi (withRowObjBounds c r) x = specJoin scan glo ghi (withRowObjBounds c r') x := by
+  unfold specJoin
+  rw [withRowObjBounds_eq, withRowObjBounds_eq]
+  have hm : ∀ w, matchClause (setO (rowBound r c.oLowerAlias c.oLower) (rowBound r c.oUpperAlias c.oUpper) c.oLowerAlias c.oUpperAlias c) w =
+      matchClause (setO (rowBound r' c.oLowerAlias c.oLower) (rowBound r' c.oUpperAlias c.oUpper) c.oLowerAlias c.oUpperAlias c) w := by
+    intro w; funext t
+    rw [matchClause_setO, matchClause_setO, rowBound_congr h, rowBound_congr h]
+  have hw : ∀ lo hi, clauseWindow glo ghi (setO lo hi c.oLowerAlias c.oUpperAlias c) x = clauseWindow glo ghi c x := fun _ _ => rfl
+  have hb : ∀ lo hi, (setO lo hi c.oLowerAlias c.oUpperAlias c).bindings = c.bindings := fun _ _ => rfl
+  have ho : ∀ lo hi, (setO lo hi c.oLowerAlias c.oUpperAlias c).optional = c.optional := fun _ _ => rfl
+  simp only [hw, hb, ho, hm]
+
+theorem specJoinO_congr (scan : List Triple) (glo ghi : Option Int) (c : Clause) {r r' : Row} (hn : KeysNodup r)
+    (hn' : KeysNodup r') (h : RowEq r r') : SetEq (specJoinO scan glo ghi c r) (specJoinO scan glo ghi c r') := by
+  rw [specJoinO_eq, specJoinO_eq, specJoin_rowBounds_congr scan glo ghi c h r]
+  exact specJoin_congr scan glo ghi _ hn hn' h
+
+theorem joinClauseO_setEq (scan : List Triple) (glo ghi : Option Int) (c : Clause) {rows rows' : List Row}
+    (hn : ∀ r ∈ rows, KeysNodup r) (hn' : ∀ r ∈ rows', KeysNodup r) (h : SetEq rows rows') :
+    SetEq (joinClauseO scan glo ghi rows c) (joinClauseO scan glo ghi rows' c) := by
+  rw [joinClauseO_flat, joinClauseO_flat]
+  constructor
+  · intro x hx
+    obtain ⟨r, hr, hxr⟩ := List.mem_flatMap.mp hx
+    obtain ⟨r', hr', e⟩ := h.1 r hr
+    obtain ⟨x', hx', e'⟩ := (specJoinO_congr scan glo ghi c (hn r hr) (hn' r' hr') e).1 x hxr
+    exact ⟨x', List.mem_flatMap.mpr ⟨r', hr', hx'⟩, e'⟩
+  · intro x hx
+    obtain ⟨r', hr', hxr⟩ := List.mem_flatMap.mp hx
+    obtain ⟨r, hr, e⟩ := h.2 r' hr'
+    obtain ⟨x', hx', e'⟩ := (specJoinO_congr scan glo ghi c (hn r hr) (hn' r' hr') e).2 x hxr
+    exact ⟨x', List.mem_flatMap.mpr ⟨r, hr, hx'⟩, e'⟩
+
+theorem joinClauseO_allNodup (scan : List Triple) (glo ghi : Option Int) (c : Clause) {rows : List Row}
+    (hn : ∀ r ∈ rows, KeysNodup r) : ∀ x ∈ joinClauseO scan glo ghi rows c, KeysNodup x := by
+  intro x hx
+  rw [joinClauseO_flat] at hx
+  obtain ⟨r, hr, hxr⟩ := List.mem_flatMap.mp hx
+  rw [specJoinO_eq, ← joinClause_single] at hxr
+  exact joinClause_allNodup scan glo ghi _ (rows := [r]) (fun r' hr' => by
+    simp only [List.mem_singleton] at hr'; subst hr'; exact hn r' hr) x hxr
+
 /-- What is assumed of every clause of the pattern. -/
 structure PatClause (U : Universe gs) (c : Clause) : Prop where
   wf : ClauseWF c
   consts : ConstWF c
   inU : ClauseIn U c
   noBareAliases : c.extractsNothing = true → c.bindings = []
+  /-- a bound alias of the object's interval stands in place of a constant bound -/
+  objBoundExcl : (c.oLowerAlias ≠ [] → c.oLower = none) ∧ (c.oUpperAlias ≠ [] → c.oUpper = none)
 
 theorem foldl_join_nil (scan : List Triple) (glo ghi : Option Int) (cs : List Clause) :
-    cs.foldl (joinClause scan glo ghi) [] = [] := by
+    cs.foldl (joinClauseO scan glo ghi) [] = [] := by
   induction cs with
   | nil => rfl
-  | cons c cs ih => simp only [List.foldl_cons]; rw [show joinClause scan glo ghi [] c = [] from rfl]; exact ih
+  | cons c cs ih => simp only [List.foldl_cons]; rw [show joinClauseO scan glo ghi [] c = [] from rfl]; exact ih
 
 theorem foldl_join_setEq (scan : List Triple) (glo ghi : Option Int) (cs : List Clause) :
     ∀ {rows rows' : List Row}, (∀ r ∈ rows, KeysNodup r) → (∀ r ∈ rows', KeysNodup r) → SetEq rows rows' →
-    SetEq (cs.foldl (joinClause scan glo ghi) rows) (cs.foldl (joinClause scan glo ghi) rows') := by
+    SetEq (cs.foldl (joinClauseO scan glo ghi) rows) (cs.foldl (joinClauseO scan glo ghi) rows') := by
   induction cs with
   | nil => intro rows rows' _ _ h; exact h
   | cons c cs ih =>
     intro rows rows' hn hn' h
     simp only [List.foldl_cons]
-    exact ih (joinClause_allNodup _ _ _ c hn) (joinClause_allNodup _ _ _ c hn') (joinClause_setEq _ _ _ c hn hn' h)
+    exact ih (joinClauseO_allNodup _ _ _ c hn) (joinClauseO_allNodup _ _ _ c hn') (joinClauseO_setEq _ _ _ c hn hn' h)
 
 /-- The loop of `processGraphPattern`, from a table that already has bindings. -/
 theorem go_spec {F : Facts} (hF : Facts.WF F = true) (hg : GraphsOK F gs) (U : Universe gs) (lo : QOpts) :
     ∀ (cs : List Clause), (∀ c ∈ cs, PatClause U c) → ∀ (tbl out : Tbl), TblOK U tbl → tbl.bindings ≠ [] →
       processPattern.go F gs lo 0 (fun _ => none) tbl cs = .ok out →
-      SetEq out.rows (cs.foldl (joinClause (gs.flatMap scanOf) (nl lo.lower) (nl lo.upper)) tbl.rows) := by
+      SetEq out.rows (cs.foldl (joinClauseO (gs.flatMap scanOf) (nl lo.lower) (nl lo.upper)) tbl.rows) := by
   intro cs
   induction cs with
   | nil =>
@@ -138,7 +214,7 @@ theorem go_spec {F : Facts} (hF : Facts.WF F = true) (hg : GraphsOK F gs) (U : U
     | ok res =>
       obtain ⟨t, unres⟩ := res
       simp only [hp] at h
-      obtain ⟨a1, a2, a3, a4⟩ := processClause_spec hF hg U ht hc.wf hc.consts hc.inU (lo := { lo with filter := none }) rfl
+      obtain ⟨a1, a2, a3, a4⟩ := processClause_spec hF hg U ht hc.wf hc.consts hc.inU (lo := { lo with filter := none }) rfl hc.objBoundExcl
         (fun hb => absurd hb hB) (fun he hb => absurd (hc.noBareAliases he) hb) hp
       simp only [List.foldl_cons]
       rw [absRows_of_ne hB] at a3 a4
@@ -147,7 +223,7 @@ theorem go_spec {F : Facts} (hF : Facts.WF F = true) (hg : GraphsOK F gs) (U : U
         simp only [if_true, pure, Except.pure, Except.ok.injEq] at h
         subst h
         have := a4 rfl
-        have e : joinClause (gs.flatMap scanOf) (nl lo.lower) (nl lo.upper) tbl.rows c = [] := this
+        have e : joinClauseO (gs.flatMap scanOf) (nl lo.lower) (nl lo.upper) tbl.rows c = [] := this
         rw [e, foldl_join_nil]
         exact SetEq.refl _
       | false =>
@@ -156,7 +232,7 @@ theorem go_spec {F : Facts} (hF : Facts.WF F = true) (hg : GraphsOK F gs) (U : U
         rw [absRows_of_ne a2] at hset
         have := ih (fun c' hc' => hcs c' (List.mem_cons_of_mem _ hc')) t out a1 a2 h
         refine this.trans (foldl_join_setEq _ _ _ cs (fun r hr => (a1.rows r hr).1) ?_ hset)
-        exact joinClause_allNodup _ _ _ c (fun r hr => (ht.rows r hr).1)
+        exact joinClauseO_allNodup _ _ _ c (fun r hr => (ht.rows r hr).1)
 
 theorem tblOK_empty (U : Universe gs) : TblOK U {} := by
   have e : ({} : Tbl).rows = [] := rfl
@@ -172,10 +248,10 @@ theorem processPattern_spec {F : Facts} (hF : Facts.WF F = true) (hg : GraphsOK 
     (c0 : Clause) (cs : List Clause) (h0 : PatClause U c0) (hrest : ∀ c ∈ cs, PatClause U c)
     (hopt : c0.optional = false) (hex : c0.extractsNothing = false) (out : Tbl)
     (h : processPattern F gs (c0 :: cs) lo 0 (fun _ => none) = .ok out) :
-    SetEq out.rows (solutions (gs.flatMap scanOf) (nl lo.lower) (nl lo.upper) (c0 :: cs)) := by
+    SetEq out.rows (solutionsO (gs.flatMap scanOf) (nl lo.lower) (nl lo.upper) (c0 :: cs)) := by
   unfold processPattern at h
   simp only [processPattern.go, bind, Except.bind] at h
-  unfold solutions
+  unfold solutionsO
   simp only [List.foldl_cons]
   cases hp : processClause F gs {} c0 { lo with filter := none } 0 with
   | error e => simp [hp] at h
@@ -183,7 +259,7 @@ theorem processPattern_spec {F : Facts} (hF : Facts.WF F = true) (hg : GraphsOK 
     obtain ⟨t, unres⟩ := res
     simp only [hp] at h
     obtain ⟨a1, a2, a3, a4⟩ := processClause_spec hF hg U (tblOK_empty U) h0.wf h0.consts h0.inU
-      (lo := { lo with filter := none }) rfl (fun _ => ⟨hopt, hex⟩) (fun he hb => absurd (h0.noBareAliases he) hb) hp
+      (lo := { lo with filter := none }) rfl h0.objBoundExcl (fun _ => ⟨hopt, hex⟩) (fun he hb => absurd (h0.noBareAliases he) hb) hp
     have habs : absRows ({} : Tbl) = [[]] := rfl
     rw [habs] at a3 a4
     have hn1 : ∀ r ∈ ([[]] : List Row), KeysNodup r := by
@@ -192,7 +268,7 @@ theorem processPattern_spec {F : Facts} (hF : Facts.WF F = true) (hg : GraphsOK 
     | true =>
       simp only [if_true, pure, Except.pure, Except.ok.injEq] at h
       subst h
-      have e : joinClause (gs.flatMap scanOf) (nl lo.lower) (nl lo.upper) [[]] c0 = [] := a4 rfl
+      have e : joinClauseO (gs.flatMap scanOf) (nl lo.lower) (nl lo.upper) [[]] c0 = [] := a4 rfl
       rw [e, foldl_join_nil]
       exact SetEq.refl _
     | false =>
@@ -201,6 +277,16 @@ theorem processPattern_spec {F : Facts} (hF : Facts.WF F = true) (hg : GraphsOK 
       rw [absRows_of_ne a2] at hset
       have := go_spec hF hg U lo cs hrest t out a1 a2 h
       exact this.trans (foldl_join_setEq _ _ _ cs (fun r hr => (a1.rows r hr).1)
-        (joinClause_allNodup _ _ _ c0 hn1) hset)
+        (joinClauseO_allNodup _ _ _ c0 hn1) hset)
+
+/-- The same for patterns without object intervals bounded by bindings: the plain `solutions`. -/
+theorem processPattern_spec_plain {F : Facts} (hF : Facts.WF F = true) (hg : GraphsOK F gs) (U : Universe gs) (lo : QOpts)
+    (c0 : Clause) (cs : List Clause) (h0 : PatClause U c0) (hrest : ∀ c ∈ cs, PatClause U c)
+    (hno : ∀ c ∈ c0 :: cs, c.oLowerAlias = [] ∧ c.oUpperAlias = [])
+    (hopt : c0.optional = false) (hex : c0.extractsNothing = false) (out : Tbl)
+    (h : processPattern F gs (c0 :: cs) lo 0 (fun _ => none) = .ok out) :
+    SetEq out.rows (solutions (gs.flatMap scanOf) (nl lo.lower) (nl lo.upper) (c0 :: cs)) := by
+  rw [← solutionsO_eq _ _ _ _ hno]
+  exact processPattern_spec hF hg U lo c0 cs h0 hrest hopt hex out h
 
 end BW.Proofs.Planner
